@@ -52,6 +52,39 @@ Theorem C13_from_affine_blsg1_valid : forall c x y P,
 Proof. exact blsg1_from_affine_valid. Qed.
 Print Assumptions C13_from_affine_blsg1_valid.
 
+(* BLS12-381 G2 (the same format over Fp2, c1 || c0; a = 0 as in g2_params.go).  The Fp2 square
+   root of the library does not re-check its result, so the compressed decoder needs prime p *)
+Theorem C13_decoded_in_subgroup_blsg2_compressed : forall c bs P,
+  prime (w2c_p c) -> 2 < w2c_p c -> w2_a (w2c c) = (0, 0) ->
+  blsg2_dec_c c bs = Some P -> w2_on_curve (w2c c) P = true /\ w2_in_subgroup c P.
+Proof. exact blsg2_dec_c_valid. Qed.
+Print Assumptions C13_decoded_in_subgroup_blsg2_compressed.
+
+Theorem C13_decoded_in_subgroup_blsg2_uncompressed : forall c bs P, w2_a (w2c c) = (0, 0) ->
+  blsg2_dec_u c bs = Some P -> w2_on_curve (w2c c) P = true /\ w2_in_subgroup c P.
+Proof. exact blsg2_dec_u_valid. Qed.
+Print Assumptions C13_decoded_in_subgroup_blsg2_uncompressed.
+
+Theorem C13_from_affine_blsg2_valid : forall c x y P, w2_a (w2c c) = (0, 0) ->
+  blsg2_from_affine c x y = Some P ->
+  P = Some (x, y) /\ w2_on_curve (w2c c) P = true /\ w2_in_subgroup c P.
+Proof. exact blsg2_from_affine_valid. Qed.
+Print Assumptions C13_from_affine_blsg2_valid.
+
+Theorem C13_fp2_sqrt_sound : forall c v y, prime (w2c_p c) -> 2 < w2c_p c ->
+  fp2_sqrt c v = Some y -> fmul (K2 c) y y = (fst v mod w2c_p c, snd v mod w2c_p c).
+Proof. exact fp2_sqrt_sound. Qed.
+Print Assumptions C13_fp2_sqrt_sound.
+
+(* GT: an accepted string is twelve reduced coefficients of an element with x^r = 1 *)
+Theorem C13_decoded_in_subgroup_gt : forall p r len bs x,
+  gt_from_bytes p r len bs = Some x ->
+  length bs = (12 * len)%nat /\
+  gt_coeffs x = map (fun ch => be_val ch mod p) (chunks len 12 bs) /\
+  fp12_eqb p (fp12_pow p x r) (fp12_one p) = true.
+Proof. exact gt_from_bytes_valid. Qed.
+Print Assumptions C13_decoded_in_subgroup_gt.
+
 (* edwards25519 (RFC 8032 form): x is recovered through a field inverse, hence prime p *)
 Theorem C13_decoded_on_curve_ed_compressed : forall c bs P,
   prime (ec_p c) -> ed_dec_c c bs = Some P -> e_on_curve (ec c) P = true.
@@ -125,6 +158,22 @@ Theorem C13_from_affine_x_blsg1_on_curve : forall c x odd P,
   blsg1_from_affine_x c x odd = Some P -> w_on_curve (wc c) P = true.
 Proof. exact blsg1_from_affine_x_on_curve. Qed.
 Print Assumptions C13_from_affine_x_blsg1_on_curve.
+
+Theorem C13_wrong_length_rejected_blsg2 : forall c bs,
+  (length bs <> (2 * w2c_len c)%nat -> blsg2_dec_c c bs = None) /\
+  (length bs <> (4 * w2c_len c)%nat -> blsg2_dec_u c bs = None).
+Proof. exact blsg2_wrong_length. Qed.
+Print Assumptions C13_wrong_length_rejected_blsg2.
+
+Theorem C13_wrong_flags_rejected_blsg2 : forall c b0 r,
+  (flagC b0 <> 1 -> blsg2_dec_c c (b0 :: r) = None) /\
+  (flagI b0 = 1 -> flagS b0 = 1 -> blsg2_dec_c c (b0 :: r) = None) /\
+  (flagI b0 = 1 -> (b0 mod 32 <> 0 \/ all_zero r = false) -> blsg2_dec_c c (b0 :: r) = None) /\
+  (flagC b0 = 1 -> blsg2_dec_u c (b0 :: r) = None) /\
+  (flagS b0 = 1 -> blsg2_dec_u c (b0 :: r) = None) /\
+  (flagI b0 = 1 -> (b0 mod 32 <> 0 \/ all_zero r = false) -> blsg2_dec_u c (b0 :: r) = None).
+Proof. exact blsg2_wrong_flags. Qed.
+Print Assumptions C13_wrong_flags_rejected_blsg2.
 
 Theorem C13_wrong_length_rejected_ed_x : forall c bs,
   (length bs <> ec_len c -> ed_dec_c c bs = None) /\
@@ -302,7 +351,7 @@ Theorem C13_extracted_instances_tie :
   k256_codec_f tt = k256_codec /\ p256_codec_f tt = p256_codec /\
   pallas_codec_f tt = pallas_codec /\ vesta_codec_f tt = vesta_codec /\
   blsg1_codec_f tt = blsg1_codec /\ ed25519_codec_f tt = ed25519_codec /\
-  curve25519_params_f tt = curve25519_params.
+  curve25519_params_f tt = curve25519_params /\ blsg2_codec_f tt = blsg2_codec.
 Proof. exact codec_thunks_tie. Qed.
 Print Assumptions C13_extracted_instances_tie.
 
